@@ -161,3 +161,18 @@ def nat_gzip(b):
 def nat_wrap_gzip(magic, message_set, timestamp=0):
     """a compressed wrapper message (bytes) around message_set"""
     return nat_enc_msg(magic, 1, None, nat_gzip(message_set), timestamp)
+
+
+def dkey(d, i):
+    return list(d.keys())[i]
+
+
+def dval(d, i):
+    return list(d.values())[i]
+
+
+def grouped(xs):
+    out = {}
+    for t in xs:
+        out.setdefault(t.topic, {})[t.partition] = t
+    return out
